@@ -59,6 +59,9 @@ m("C02", "operators/tee_map.py", "                        # a lifetime ended by 
 m("C19", "io/file.py", "                    f = open_obj(file, mode, encoding=encoding)", "                    kwargs = dict(mode=mode, encoding=encoding)\n                    f = open_obj(file, **kwargs)", "silent", [], "round r: the opener's arguments in a dict(...) that always carries mode and encoding")
 m("C19", "io/file.py", "                    f = open_obj(file, mode, encoding=encoding)", "                    f = open_obj(file, mode)", "fire", ["FH-1"], "round r: the opener is not given the encoding keyword")
 m("C19", "io/file.py", "                    with open_obj(file, mode, encoding=encoding) as f:", "                    with open_obj(file, mode) as f:", "fire", ["FR-3"], "round r: the opener of file.read is not given the encoding keyword")
+m("C18", "container/csv.py", "                if i in none_values:\n", "                if i in none_values or len(i) == 0:\n", "fire", ["CS-1"], "round r: an empty field read as None whatever its column (the empty string is written as two quotes)")
+m("C20", "container/parquet.py", "                pf = pq.parquet_file = pq.ParquetFile(\n                    filename,", "                pf = pq.parquet_file = pq.ParquetFile(\n                    io.BytesIO(filename.read()),", "fire", ["PU-2"], "round r: the reader opened on a copy taken with read() from wherever the caller left the object")
+m("C19", "io/file.py", "                    f = open_obj(file, mode, encoding=encoding)", "                    f = open_obj(file, encoding=encoding)", "fire", ["FH-1"], "round r: the opener is not given the mode")
 m("C02", "operators/tee_map.py", "                            queue[base_index+index] = None\n                            has_next[base_index+index] = False\n                return", "                            queue[base_index+index] = None\n                            has_next[index] = False\n                return", "fire", ["ST-5"], "a reset that lands in the slots of key 0 (seeded change C02d, still a defect after 4dc75fc)")
 m("C02", "operators/tee_map.py", "                        for index in range(n):\n                            queue[base_index+index] = None\n                            has_next[base_index+index] = False\n                return", "                        queue[base_index+i] = None\n                        has_next[base_index+i] = False\n                return", "silent", [], "the defect repaired first (completion cleared one slot only) is harmless since 4dc75fc: the slots are cleared again when the key index is created")
 m("C02", "operators/last.py", "            state = None\n\n            def on_next(i):\n                nonlocal state\n\n                if type(i) is rs.OnNextMux:\n                    i.store.set_state(state, i.key, i.item)", "            state = None\n            last_item = [None]\n\n            def on_next(i):\n                nonlocal state\n\n                if type(i) is rs.OnNextMux:\n                    last_item[0] = i.item\n                    i.store.set_state(state, i.key, i.item)", "fire", ["ST-1"])
